@@ -206,6 +206,141 @@ def helper_contains(h, pa, pb, helpers, depth):
     return 'ok', h.name + ': ' + '; '.join(reasons)
 
 
+class _NoEval(Exception):
+    pass
+
+
+PATH_PROBES = [
+    ('/base/a.tex', '/base', True), ('/base/sub/a.tex', '/base', True), ('/base/..draft.tex', '/base', True),
+    ('/base/..old/x.tex', '/base', True), ('/base/...latex', '/base', True), ('/base/sub/..x', '/base', True),
+    ('/basement/x.tex', '/base', False), ('/x.tex', '/base', False), ('/other/base/x.tex', '/base', False),
+    ('/a/b', '/a/b/c', False), ('/base2', '/base', False), ('/bas', '/base', False), ('/base/x', '/', True),
+    ('/Base/x.tex', '/base', False), ('/base/sub/deep/x.tex', '/base/sub', True), ('/base/subdir/x', '/base/sub', False),
+]
+
+
+def path_probe_verdict(h, pa, pb):
+    """evaluate the pure path predicate `h` (a module-level helper) with the checker's own
+    interpreter on absolute, normalised probe paths (what realpath returns); posixpath functions
+    stand for os.path.  ('ok'|'prefix'|'unknown', reason)"""
+    import posixpath
+    params = [a.arg for a in h.args.args]
+
+    def run(path, d):
+        env = dict(zip(params, [None] * len(params)))
+        env[pa], env[pb] = path, d
+
+        def ev(e):
+            if isinstance(e, ast.Constant):
+                return e.value
+            if isinstance(e, ast.Name):
+                if e.id in env:
+                    return env[e.id]
+                raise _NoEval('name ' + e.id)
+            if isinstance(e, ast.Attribute):
+                t = unparse(e)
+                if t in ('os.sep', 'os.path.sep'):
+                    return '/'
+                if t in ('os.pardir', 'os.path.pardir'):
+                    return '..'
+                if t in ('os.curdir', 'os.path.curdir'):
+                    return '.'
+                raise _NoEval('attribute ' + t)
+            if isinstance(e, ast.BoolOp):
+                v = None
+                for x in e.values:
+                    v = ev(x)
+                    if isinstance(e.op, ast.And) and not v:
+                        return v
+                    if isinstance(e.op, ast.Or) and v:
+                        return v
+                return v
+            if isinstance(e, ast.UnaryOp) and isinstance(e.op, ast.Not):
+                return not ev(e.operand)
+            if isinstance(e, ast.BinOp) and isinstance(e.op, ast.Add):
+                return ev(e.left) + ev(e.right)
+            if isinstance(e, ast.IfExp):
+                return ev(e.body) if ev(e.test) else ev(e.orelse)
+            if isinstance(e, ast.Compare) and len(e.ops) == 1:
+                l, r = ev(e.left), ev(e.comparators[0])
+                op = e.ops[0]
+                if isinstance(op, ast.Eq):
+                    return l == r
+                if isinstance(op, ast.NotEq):
+                    return l != r
+                if isinstance(op, ast.In):
+                    return l in r
+                if isinstance(op, ast.NotIn):
+                    return l not in r
+                raise _NoEval('operator')
+            if isinstance(e, ast.Subscript):
+                v = ev(e.value)
+                if isinstance(e.slice, ast.Slice):
+                    lo = ev(e.slice.lower) if e.slice.lower is not None else None
+                    hi = ev(e.slice.upper) if e.slice.upper is not None else None
+                    return v[lo:hi]
+                return v[ev(e.slice)]
+            if isinstance(e, (ast.List, ast.Tuple)):
+                return [ev(x) for x in e.elts]
+            if isinstance(e, ast.Call):
+                fn = unparse(e.func)
+                args = [ev(x) for x in e.args]
+                if fn.startswith('os.path.') and hasattr(posixpath, fn[8:]) and fn[8:] in (
+                        'relpath', 'isabs', 'join', 'normpath', 'commonpath', 'commonprefix', 'dirname', 'basename',
+                        'split', 'splitext'):
+                    return getattr(posixpath, fn[8:])(*args)
+                if fn == 'len' and len(args) == 1:
+                    return len(args[0])
+                if isinstance(e.func, ast.Attribute):
+                    recv = ev(e.func.value)
+                    if isinstance(recv, str) and e.func.attr in ('startswith', 'endswith', 'rstrip', 'lstrip', 'strip',
+                                                                  'split', 'lower', 'upper', 'casefold'):
+                        return getattr(recv, e.func.attr)(*args)
+                raise _NoEval('call ' + short(e, 40))
+            raise _NoEval('expression ' + type(e).__name__)
+
+        def block(stmts):
+            for st in stmts:
+                if isinstance(st, ast.Expr):
+                    continue
+                if isinstance(st, ast.Assign) and len(st.targets) == 1 and isinstance(st.targets[0], ast.Name):
+                    env[st.targets[0].id] = ev(st.value)
+                elif isinstance(st, ast.AugAssign) and isinstance(st.target, ast.Name) and isinstance(st.op, ast.Add):
+                    env[st.target.id] = env[st.target.id] + ev(st.value)
+                elif isinstance(st, ast.If):
+                    r = block(st.body if ev(st.test) else st.orelse)
+                    if r is not None:
+                        return r
+                elif isinstance(st, ast.Return):
+                    return ('v', ev(st.value) if st.value is not None else None)
+                else:
+                    raise _NoEval('statement ' + type(st).__name__)
+            return None
+        r = block(h.body)
+        if r is None:
+            raise _NoEval('no return reached')
+        return bool(r[1])
+    wrong = []
+    try:
+        for path, d, want in PATH_PROBES:
+            got = run(path, d)
+            if got != want:
+                wrong.append((path, d, got))
+    except _NoEval as e:
+        return 'unknown', 'containment helper not evaluable on probe paths (%s)' % e
+    except Exception as e:      # posixpath raising on a probe (commonpath of mixed paths ...)
+        return 'unknown', 'containment helper raised on a probe path (%s)' % type(e).__name__
+    if not wrong:
+        return 'ok', '%s: agrees with component-wise containment on %d probe path pairs' % (h.name, len(PATH_PROBES))
+    leak = [w for w in wrong if w[2]]
+    if leak:
+        return 'prefix', ('%s accepts %s as inside %s: a path outside the directory passes the test'
+                          % (h.name, leak[0][0], leak[0][1]))
+    return 'prefix', ('%s rejects %s although it lies inside %s: the test looks at characters, not at path components '
+                      '(names that merely start with two dots are taken for the parent directory), so a file inside '
+                      'the input directory is refused' % (h.name, wrong[0][0], wrong[0][1]))
+
+
 def _is_realpath_call(e):
     return isinstance(e, ast.Call) and unparse(e.func) in ('os.path.realpath', 'realpath') and e.args
 
@@ -299,6 +434,14 @@ def run(ctx):
                             construct='containment: ' + short(test))
             else:
                 verdict, why = contains_expr(inner, a, b, sepn, helpers)
+                if verdict == 'unknown' and isinstance(inner, ast.Call) and isinstance(inner.func, ast.Name) \
+                        and inner.func.id in helpers:
+                    # a form the structural classifier does not know: the pure predicate is evaluated on probes
+                    h_ = helpers[inner.func.id]
+                    hp_ = [x.arg for x in h_.args.args]
+                    an_ = [unparse(x) for x in inner.args]
+                    if len(hp_) == len(an_) and a in an_ and b in an_:
+                        verdict, why = path_probe_verdict(h_, hp_[an_.index(a)], hp_[an_.index(b)])
                 if verdict == 'ok':
                     ctx.holds('R15a', m, check, why, construct='containment: ' + short(test))
                 elif verdict == 'prefix':
